@@ -54,6 +54,10 @@ theorem step_step (act : Nat → Act) (h : List Out) (p : P) (i : In) (hi : Inv'
   | bytes d => exact stepBytes_step act d h p hi
   | lost => exact lose_step h p.q hi
   | whenDisc rid => exact whenDisc_step h p.q rid hi
+  | onDisc rid => exact onDisc_step h p.q rid hi
+  | reason clean =>
+    simp only [Ctl.step]
+    exact step_of_silent hi rfl rfl rfl (by simp [Silent])
   | addL n l c => exact addListener_step h p.q n l c hi
   | remL n l c =>
     simp only [Ctl.step]
